@@ -479,7 +479,7 @@ pub const QUERY_DOCS: [&str; 3] = [
 ];
 
 // (document, expression, string value of the result); q is bound to "u", w to "w"
-pub const NAME_CASES: [(&str, &str, &str); 24] = [
+pub const NAME_CASES: [(&str, &str, &str); 28] = [
     ("<r xmlns='u' a='1'><b c='2'/></r>", "count(//@a)", "1"),
     ("<r xmlns='u' a='1'><b c='2'/></r>", "count(//@q:a)", "0"),
     ("<r xmlns='u' a='1'><b c='2'/></r>", "namespace-uri(//@a)", ""),
@@ -504,6 +504,10 @@ pub const NAME_CASES: [(&str, &str, &str); 24] = [
     ("<r xml:lang='en'/>", "count(//@lang)", "0"),
     ("<n:r xmlns:n='u' xmlns:m='u'><m:a/></n:r>", "count(//q:a) + count(/q:r)", "2"),
     ("<n:r xmlns:n='u' xmlns:m='u'><m:a/></n:r>", "local-name(/*/*)", "a"),
+    ("<r xmlns:a='A' xmlns='u'><e1 xmlns=''><e2/></e1></r>", "count(//e2)", "1"),
+    ("<r xmlns:a='A' xmlns='u'><e1 xmlns=''><e2/></e1></r>", "count(//q:e2)", "0"),
+    ("<r xmlns:a='A' xmlns='u'><e1 xmlns=''><e2/></e1></r>", "count(/q:r/e1/namespace::*)", "2"),
+    ("<r xmlns:a='A' xmlns:b='w'><c xmlns:b='u'><b:d/></c></r>", "count(//q:d) + count(/r/c/namespace::*)", "4"),
 ];
 
 // XPath 1.0 4.4 number() on strings, 4.2 string() on numbers: (expression, string value of the result)
@@ -538,10 +542,14 @@ pub const STRING_CASES: [(&str, &str, &str); 16] = [
 ];
 
 // XPath 1.0 2.4: a predicate whose value is a number is true exactly when the number equals the proximity position
-pub const PREDICATE_CASES: [(&str, &str); 16] = [
+pub const PREDICATE_CASES: [(&str, &str); 24] = [
     ("name(/r/*[1])", "a"), ("name(/r/*[2])", "c"), ("name(/r/*[3.0])", "i"), ("count(/r/*[1.5])", "0"), ("count(/r/*[2.9])", "0"), ("count(/r/*[0.5])", "0"),
     ("count(/r/*[0])", "0"), ("count(/r/*[-1])", "0"), ("count(/r/*[4])", "0"), ("count(/r/*[0 div 0])", "0"), ("count(/r/*[1 div 0])", "0"),
     ("count(/r/*[0.5 + 0.5])", "1"), ("count(/r/*[position() = 1.5])", "0"), ("count(/r/*[last()])", "1"), ("count(/r/*['x'])", "3"), ("count(/r/*[''])", "0"),
+    // several predicates on one step: each one counts positions among the nodes the previous one kept, in axis order
+    ("name(/r/i/preceding-sibling::*[1])", "c"), ("name(/r/i/preceding-sibling::*[2])", "a"), ("name(/r/i/preceding-sibling::*[self::a or self::c][1])", "c"),
+    ("name(/r/i/preceding-sibling::*[self::a][1])", "a"), ("name(//h/ancestor::*[self::c or self::r][1])", "c"), ("name(//h/ancestor::*[self::c or self::r][2])", "r"),
+    ("name(//h/ancestor::*[not(self::g)][1])", "c"), ("name(/r/*[self::c or self::i][2])", "i"),
 ];
 
 // the thirteen axes on one document; expected: string value of the expression (names joined by the expression itself)
@@ -1286,7 +1294,7 @@ fn in_child(op: &str, doc: &str, want: &str, site: &str) -> Outcome {
 // C11: normalized attribute values (XML 1.0 3.3.3).  (document, "name=value name=value ..." of the document element, as
 // the recommendation prescribes; values shown with {:?})
 
-pub const ATTR_NORM_CASES: [(&str, &str); 17] = [
+pub const ATTR_NORM_CASES: [(&str, &str); 20] = [
     ("<r a=\"x\ty\nz\"/>", "a=\"x y z\""),
     ("<r a=\"&#9;&#10;&#13;&#32;|\"/>", "a=\"\\t\\n\\r |\""),
     ("<!DOCTYPE r [<!ENTITY e \"v w\">]><r a=\"p&e;q\"/>", "a=\"pv wq\""),
@@ -1307,6 +1315,10 @@ pub const ATTR_NORM_CASES: [(&str, &str); 17] = [
     ("<!DOCTYPE r [<!ENTITY e1 \"1&e2;\"><!ENTITY e2 \"2&e3;\"><!ENTITY e3 \"3&e4;\"><!ENTITY e4 \"4&e5;\"><!ENTITY e5 \"5\">]><r a=\"&e1;\"/>", "a=\"12345\""),
     ("<!DOCTYPE r [<!ENTITY e1 \"1&e2;\"><!ENTITY e2 \"2&e3;\"><!ENTITY e3 \"3&lt;\">]><r a=\"&e1;|&e1;\"/>", "a=\"123<|123<\""),
     ("<!DOCTYPE r [<!ENTITY e \"v\">]><r a=\"&e;&e;&e;&e;&e;&e;\"/>", "a=\"vvvvvv\""),
+    // only #x20 is trimmed and collapsed for tokenized types; a referenced tab / no-break space stays
+    ("<!DOCTYPE r [<!ATTLIST r a NMTOKENS #IMPLIED>]><r a=\"x&#9;y\"/>", "a=\"x\\ty\""),
+    ("<!DOCTYPE r [<!ATTLIST r a NMTOKENS #IMPLIED>]><r a=\" &#xA0;x  y&#10; \"/>", "a=\"\\u{a0}x y\\n\""),
+    ("<!DOCTYPE r [<!ATTLIST r a IDREFS #IMPLIED>]><r a=\"\u{3000}p \u{3000} q\"/>", "a=\"\\u{3000}p \\u{3000} q\""),
 ];
 
 pub fn info_attr_norm(doc: &str, expected: &str) -> Outcome {
@@ -1338,7 +1350,7 @@ pub fn info_attr_norm(doc: &str, expected: &str) -> Outcome {
 // C10, information-set level: [namespace name] of every element and attribute, in document order
 // (element: name=uri or name=- ; attributes of an element follow it as @name=uri)
 
-pub const NS_CASES: [(&str, &str); 9] = [
+pub const NS_CASES: [(&str, &str); 12] = [
     ("<r xmlns='u'><a/></r>", "r=u a=u"),
     ("<r xmlns='u'><a xmlns=''><b/></a><c/></r>", "r=u a=- b=- c=u"),
     ("<r xmlns:p='u'><p:a><p:b p:x='1' y='2'/></p:a></r>", "r=- a=u b=u @x=u @y=-"),
@@ -1348,6 +1360,10 @@ pub const NS_CASES: [(&str, &str); 9] = [
     ("<r><a xmlns='u'><b><c/></b></a><d/></r>", "r=- a=u b=u c=u d=-"),
     ("<r xmlns='u' a='1'><b c='2'/></r>", "r=u @a=- b=u @c=-"),
     ("<!DOCTYPE r [<!ENTITY e 'u'>]><r xmlns='&e;'><a/></r>", "r=u a=u"),
+    // the order in which an element writes its declarations does not matter
+    ("<r xmlns:a='A' xmlns='U'><e1 xmlns=''><e2/></e1><c/></r>", "r=U e1=- e2=- c=U"),
+    ("<r xmlns='U' xmlns:a='A'><e1 xmlns=''><e2/></e1><c/></r>", "r=U e1=- e2=- c=U"),
+    ("<r xmlns:a='A' xmlns:b='B' xmlns:c='C'><x xmlns:b='B2'><b:y a:k='1' c:k='2'/></x></r>", "r=- x=- y=B2 @k=A @k=C"),
 ];
 
 pub fn info_namespace_names(doc: &str, expected: &str) -> Outcome {
